@@ -230,4 +230,378 @@ theorem callKind_known {fn : String} {n : Nat} {r : MType × Option Nat × Bool}
 theorem callKind_none_error (n : Nat) : ∃ err, callKind none n = .error err := by
   simp [callKind, unknownCallRaises]
 
+/-! ### argument renaming -/
+
+def calleeOk (ps : List String) : Callee → Bool
+  | .direct f => !ps.contains f
+  | .lib p _ => !ps.contains p
+  | _ => true
+
+mutual
+/-- no parameter of the function is used as a function or module name inside the expression -/
+def calleeFree (ps : List String) : PyExpr → Bool
+  | .unary _ e => calleeFree ps e
+  | .binop _ l r => calleeFree ps l && calleeFree ps r
+  | .compare l _ r rest => calleeFree ps l && calleeFree ps r && calleeFreeLinks ps rest
+  | .ifexp t b o => calleeFree ps t && calleeFree ps b && calleeFree ps o
+  | .call f args => calleeOk ps f && calleeFreeList ps args
+  | .attr p _ => !ps.contains p
+  | .boolop _ vals => calleeFreeList ps vals
+  | _ => true
+def calleeFreeList (ps : List String) : List PyExpr → Bool
+  | [] => true
+  | e :: es => calleeFree ps e && calleeFreeList ps es
+def calleeFreeLinks (ps : List String) : List (COp × PyExpr) → Bool
+  | [] => true
+  | (_, e) :: rest => calleeFree ps e && calleeFreeLinks ps rest
+end
+
+theorem zipStrict_eq {ps as : List String} {σ : List (String × String)} (h : zipStrict ps as = .ok σ) :
+    σ = ps.zip as := by
+  induction ps generalizing as σ with
+  | nil => cases as <;> simp [zipStrict] at h; subst h; rfl
+  | cons p ps ih =>
+    cases as with
+    | nil => simp [zipStrict] at h
+    | cons a as =>
+      simp only [zipStrict] at h
+      obtain ⟨rest, hr, h⟩ := except_bind_ok h
+      simp only [pure, Except.pure, Except.ok.injEq] at h
+      subst h
+      simp [ih hr]
+
+theorem lookup_zip_none {ps as : List String} {f : String} (h : ps.contains f = false) :
+    (ps.zip as).lookup f = none := by
+  induction ps generalizing as with
+  | nil => simp
+  | cons p ps ih =>
+    cases as with
+    | nil => simp
+    | cons a as =>
+      simp only [List.contains_cons, Bool.or_eq_false_iff] at h
+      simp only [List.zip_cons_cons, List.lookup]
+      have : (f == p) = false := h.1
+      simp [this, ih h.2]
+
+theorem renameId_free {ps as : List String} {f : String} (h : ps.contains f = false) :
+    renameId (ps.zip as) f = f := by
+  simp [renameId, lookup_zip_none h]
+
+/-- evaluating the body with the parameters bound to the values of the model names is evaluating the
+    renamed body in the model's environment -/
+theorem rename_sound (I : Interp) (env : VEnv) (ps as : List String) :
+    ∀ e v, calleeFree ps e = true → evalPy I (bindArgs env ps as) e = some v →
+      evalPy I env (renameExpr (ps.zip as) e) = some v := by
+  refine (renameExpr.mutual_induct
+    (motive_1 := fun e => ∀ v, calleeFree ps e = true → evalPy I (bindArgs env ps as) e = some v →
+      evalPy I env (renameExpr (ps.zip as) e) = some v)
+    (motive_2 := fun es => calleeFreeList ps es = true →
+      (∀ vs, evalPyList I (bindArgs env ps as) es = some vs →
+        evalPyList I env (renameList (ps.zip as) es) = some vs) ∧
+      (∀ b v, evalPyBool I (bindArgs env ps as) b es = some v →
+        evalPyBool I env b (renameList (ps.zip as) es) = some v))
+    (motive_3 := fun rest => ∀ pv v, calleeFreeLinks ps rest = true →
+      evalPyLinks I (bindArgs env ps as) pv rest = some v →
+      evalPyLinks I env pv (renameLinks (ps.zip as) rest) = some v)
+    ?name ?const ?unary ?binop ?compare ?ifexp ?call ?attr ?attrDeep ?boolop ?other
+    ?lnil ?lcons ?nil ?cons).1
+  case name =>
+    intro id v _ h
+    simp only [evalPy, bindArgs] at h
+    simp only [renameExpr, evalPy, renameId]
+    cases hl : (ps.zip as).lookup id with
+    | none => simp [hl] at h
+    | some a => simpa [hl] using h
+  case const => intro c v _ h; cases c <;> simpa [renameExpr, evalPy] using h
+  case unary =>
+    intro op e ih v hf h
+    simp only [calleeFree] at hf
+    simp only [evalPy] at h
+    obtain ⟨v1, h1, h⟩ := option_bind_some h
+    simp [renameExpr, evalPy, ih v1 hf h1, h]
+  case binop =>
+    intro op l r ihl ihr v hf h
+    simp only [calleeFree, Bool.and_eq_true] at hf
+    simp only [evalPy] at h
+    obtain ⟨a, ha, h⟩ := option_bind_some h
+    obtain ⟨b, hb, h⟩ := option_bind_some h
+    simp [renameExpr, evalPy, ihl a hf.1 ha, ihr b hf.2 hb, h]
+  case compare =>
+    intro l op r rest ihl ihr ihrest v hf h
+    simp only [calleeFree, Bool.and_eq_true] at hf
+    simp only [evalPy] at h
+    obtain ⟨a, ha, h⟩ := option_bind_some h
+    obtain ⟨b, hb, h⟩ := option_bind_some h
+    obtain ⟨ok, hok, h⟩ := option_bind_some h
+    simp only [renameExpr, evalPy, ihl a hf.1.1 ha, ihr b hf.1.2 hb]
+    cases ok with
+    | false => simpa [hok] using h
+    | true =>
+      simp only [if_true] at h
+      simp [hok, ihrest b v hf.2 h]
+  case ifexp =>
+    intro t b o iht ihb iho v hf h
+    simp only [calleeFree, Bool.and_eq_true] at hf
+    simp only [evalPy] at h
+    obtain ⟨c, hc, h⟩ := option_bind_some h
+    simp only [renameExpr, evalPy, iht c hf.1.1 hc]
+    show (if c.truthy = true then _ else _) = some v
+    by_cases htr : c.truthy = true
+    · rw [if_pos htr] at h ⊢; exact ihb v hf.1.2 h
+    · rw [if_neg htr] at h ⊢; exact iho v hf.2 h
+  case call =>
+    intro f args ih v hf h
+    simp only [calleeFree, Bool.and_eq_true] at hf
+    simp only [evalPy] at h
+    obtain ⟨vs, hvs, h⟩ := option_bind_some h
+    have hc : renameCallee (ps.zip as) f = f := by
+      cases f with
+      | direct f' =>
+        simp only [calleeOk, Bool.not_eq_true'] at hf
+        simp [renameCallee, renameId_free hf.1]
+      | lib p a =>
+        simp only [calleeOk, Bool.not_eq_true'] at hf
+        simp [renameCallee, renameId_free hf.1]
+      | libDeep => rfl
+      | other => rfl
+    simp [renameExpr, evalPy, hc, (ih hf.2).1 vs hvs, h]
+  case attr =>
+    intro p a v hf h
+    simp only [calleeFree, Bool.not_eq_true'] at hf
+    simpa [renameExpr, evalPy, renameId_free hf] using h
+  case attrDeep => intro v _ h; simpa [renameExpr, evalPy] using h
+  case boolop =>
+    intro b vals ih v hf h
+    simp only [calleeFree] at hf
+    simp only [evalPy] at h
+    simpa [renameExpr, evalPy] using (ih hf).2 b v h
+  case other => intro v _ h; simpa [renameExpr, evalPy] using h
+  case lnil => intro pv v _ h; simpa [renameLinks, evalPyLinks] using h
+  case lcons =>
+    intro op e rest ihe ihrest pv v hf h
+    simp only [calleeFreeLinks, Bool.and_eq_true] at hf
+    simp only [evalPyLinks] at h
+    obtain ⟨b, hb, h⟩ := option_bind_some h
+    obtain ⟨ok, hok, h⟩ := option_bind_some h
+    simp only [renameLinks, evalPyLinks, ihe b hf.1 hb]
+    cases ok with
+    | false => simpa [hok] using h
+    | true =>
+      simp only [if_true] at h
+      simp [hok, ihrest b v hf.2 h]
+  case nil =>
+    intro _
+    exact ⟨fun vs h => by simpa [renameList, evalPyList] using h,
+           fun b v h => by simp [evalPyBool] at h⟩
+  case cons =>
+    intro e es ihe ihes hf
+    simp only [calleeFreeList, Bool.and_eq_true] at hf
+    refine ⟨fun vs h => ?_, fun b v h => ?_⟩
+    · simp only [evalPyList] at h
+      obtain ⟨v1, h1, h⟩ := option_bind_some h
+      obtain ⟨vs1, hvs1, h⟩ := option_bind_some h
+      simp [renameList, evalPyList, ihe v1 hf.1 h1, (ihes hf.2).1 vs1 hvs1, h]
+    · cases es with
+      | nil =>
+        simp only [evalPyBool] at h
+        simpa [renameList, evalPyBool] using ihe v hf.1 h
+      | cons e' es' =>
+        simp only [evalPyBool] at h
+        obtain ⟨v1, h1, h⟩ := option_bind_some h
+        simp only [renameList, evalPyBool, ihe v1 hf.1 h1]
+        show (if (v1.truthy == b) = true then _ else _) = some v
+        by_cases hb : (v1.truthy == b) = true
+        · rw [if_pos hb] at h ⊢
+          have := (ihes hf.2).2 b v h
+          simpa [renameList] using this
+        · rw [if_neg hb] at h ⊢
+          exact h
+
+/-! ### identifiers -/
+
+/-- `[A-Za-z][A-Za-z0-9_]*` -/
+def isPlainName (s : String) : Bool :=
+  match s.toList with
+  | [] => false
+  | c :: cs => isAsciiAlpha c && cs.all isWordChar
+
+theorem escapeChars_word {cs : List Char} (h : cs.all isWordChar = true) : escapeChars cs = cs := by
+  induction cs with
+  | nil => rfl
+  | cons c cs ih =>
+    simp only [List.all_cons, Bool.and_eq_true] at h
+    simp [escapeChars, escapeChar, h.1, ih h.2]
+
+theorem escapeId_plain {s : String} (pre : String) (h : isPlainName s = true) : escapeId s pre = .ok s := by
+  unfold isPlainName at h
+  unfold escapeId
+  cases hs : s.toList with
+  | nil => simp [hs] at h
+  | cons c cs =>
+    simp only [hs, Bool.and_eq_true] at h
+    have hw : (c :: cs).all isWordChar = true := by
+      simp only [List.all_cons, Bool.and_eq_true]
+      exact ⟨by simp [isWordChar, h.1], h.2⟩
+    rw [escapeChars_word hw]
+    simp only [h.1, if_true]
+    rw [← hs, String.ofList_toList]
+
+theorem isPlainName_append_ref {x : String} (h : isPlainName x = true) : isPlainName (x ++ "ref") = true := by
+  unfold isPlainName at h ⊢
+  rw [String.toList_append]
+  cases hs : x.toList with
+  | nil => simp [hs] at h
+  | cons c cs =>
+    simp only [hs, Bool.and_eq_true] at h
+    simp only [List.cons_append, Bool.and_eq_true, List.all_append]
+    exact ⟨h.1, h.2, by decide⟩
+
+/-! ### species references -/
+
+theorem filter_fresh {l : List SRef} {sx : String} (h : ∀ s ∈ l, s.species ≠ sx) :
+    l.filter (·.species == sx) = [] := by
+  induction l with
+  | nil => rfl
+  | cons s l ih =>
+    have h1 : s.species ≠ sx := h s List.mem_cons_self
+    have h2 : ∀ t ∈ l, t.species ≠ sx := fun t ht => h t (List.mem_cons_of_mem _ ht)
+    have h3 : (s.species == sx) = false := by simpa using h1
+    simp [List.filter, h3, ih h2]
+
+theorem sideSum_fresh (env : VEnv) (d : SDoc) {l : List SRef} {sx : String}
+    (h : ∀ s ∈ l, s.species ≠ sx) : sideSum env d sx l = some 0 := by
+  simp [sideSum, filter_fresh h, sumOpt]
+
+theorem sideSum_fresh_add (env : VEnv) (d : SDoc) {l : List SRef} {sx : String} (s : SRef)
+    (h : ∀ s ∈ l, s.species ≠ sx) (hs : s.species = sx) :
+    sideSum env d sx (l ++ [s]) = (refCoef env d s).map (· + 0) := by
+  simp only [sideSum, List.filter_append, filter_fresh h, List.nil_append]
+  simp only [List.filter, hs, beq_self_eq_true, List.map, sumOpt]
+  cases refCoef env d s <;> simp
+
+theorem lookupLast_append_self {β : Type} (l : List (String × β)) (k : String) (v : β) :
+    lookupLast (l ++ [(k, v)]) k = some v := by
+  simp [lookupLast, List.lookup]
+
+/-! ### pysbml's identifier mapping on plain names -/
+
+/-- no two consecutive underscores -/
+def noDU : List Char → Bool
+  | '_' :: '_' :: _ => false
+  | _ :: rest => noDU rest
+  | [] => true
+
+theorem wordChar_ne (c d : Char) (h : isWordChar c = true) (hd : isWordChar d = false) : c ≠ d := by
+  intro e; subst e; simp [h] at hd
+
+theorem replaceChar_word (c : Char) (h : isWordChar c = true) : replaceChar c = [c] := by
+  have n1 := wordChar_ne c ' ' h (by decide)
+  have n2 := wordChar_ne c '-' h (by decide)
+  have n3 := wordChar_ne c '(' h (by decide)
+  have n4 := wordChar_ne c ')' h (by decide)
+  have n5 := wordChar_ne c '[' h (by decide)
+  have n6 := wordChar_ne c ']' h (by decide)
+  have n7 := wordChar_ne c '.' h (by decide)
+  have n8 := wordChar_ne c ',' h (by decide)
+  have n9 := wordChar_ne c ':' h (by decide)
+  have n10 := wordChar_ne c ';' h (by decide)
+  have n11 := wordChar_ne c '"' h (by decide)
+  have n12 := wordChar_ne c '\'' h (by decide)
+  have n13 := wordChar_ne c '^' h (by decide)
+  have n14 := wordChar_ne c '|' h (by decide)
+  have n15 := wordChar_ne c '=' h (by decide)
+  have n16 := wordChar_ne c '>' h (by decide)
+  have n17 := wordChar_ne c '<' h (by decide)
+  have n18 := wordChar_ne c '+' h (by decide)
+  have n19 := wordChar_ne c '*' h (by decide)
+  have n20 := wordChar_ne c '/' h (by decide)
+  simp [replaceChar, *]
+
+theorem isAlpha_of_ascii (c : Char) (h : isAsciiAlpha c = true) : c.isAlpha = true := by
+  simp [isAsciiAlpha, Char.isAlpha, Char.isUpper, Char.isLower] at *
+  rcases h with ⟨h1, h2⟩ | ⟨h1, h2⟩
+  · right; exact ⟨h1, h2⟩
+  · left; exact ⟨h1, h2⟩
+
+theorem matchEscape_none (c : Char) (cs : List Char) (h : noDU (c :: cs) = true) : matchEscape (c :: cs) = none := by
+  unfold matchEscape
+  split
+  · rename_i rest heq
+    simp only [List.cons.injEq] at heq
+    obtain ⟨rfl, rfl⟩ := heq
+    simp [noDU] at h
+  · rfl
+
+theorem noDU_tail (c : Char) (cs : List Char) (h : noDU (c :: cs) = true) : noDU cs = true := by
+  unfold noDU at h
+  split at h
+  · simp at h
+  · rename_i heq; simp only [List.cons.injEq] at heq; obtain ⟨_, rfl⟩ := heq; exact h
+  · simp at *
+
+theorem unescape_noDU (cs : List Char) (h : noDU cs = true) : ∀ fuel, unescapeChars fuel cs = cs := by
+  induction cs with
+  | nil => intro fuel; cases fuel <;> rfl
+  | cons c cs ih =>
+    intro fuel
+    cases fuel with
+    | zero => rfl
+    | succ fuel =>
+      simp only [unescapeChars, matchEscape_none c cs h]
+      rw [ih (noDU_tail c cs h)]
+
+theorem dropSubstr_noDU (cs : List Char) (h : noDU cs = true) :
+    ∀ fuel, dropSubstr sbmlDot fuel cs = cs := by
+  induction cs with
+  | nil => intro fuel; cases fuel <;> rfl
+  | cons c cs ih =>
+    intro fuel
+    cases fuel with
+    | zero => rfl
+    | succ fuel =>
+      have hp : sbmlDot.isPrefixOf (c :: cs) = false := by
+        cases cs with
+        | nil => by_cases h1 : c = '_' <;> simp [sbmlDot, List.isPrefixOf, h1]
+        | cons c2 cs2 =>
+          by_cases h1 : c = '_'
+          · by_cases h2 : c2 = '_'
+            · subst h1; subst h2; simp [noDU] at h
+            · simp only [sbmlDot, List.isPrefixOf, Bool.and_eq_false_imp, beq_iff_eq]
+              intro _ e2; exact absurd e2.symm h2
+          · simp only [sbmlDot, List.isPrefixOf, Bool.and_eq_false_imp, beq_iff_eq]
+            intro e1; exact absurd e1.symm h1
+      simp only [dropSubstr, hp]
+      rw [ih (noDU_tail c cs h)]
+      simp
+
+theorem flatMap_word (cs : List Char) (h : cs.all isWordChar = true) : cs.flatMap replaceChar = cs := by
+  induction cs with
+  | nil => rfl
+  | cons c cs ih =>
+    simp only [List.all_cons, Bool.and_eq_true] at h
+    simp [List.flatMap_cons, replaceChar_word c h.1, ih h.2]
+
+def isRoundTripName (s : String) : Bool :=
+  isPlainName s && noDU s.toList && !pyKeywords.contains s
+
+theorem nameToPy_plain (s : String) (h : isRoundTripName s = true) : nameToPy s = s := by
+  simp only [isRoundTripName, Bool.and_eq_true, Bool.not_eq_true'] at h
+  obtain ⟨⟨hp, hd⟩, hk⟩ := h
+  unfold isPlainName at hp
+  cases hs : s.toList with
+  | nil => simp [hs] at hp
+  | cons c cs =>
+    simp only [hs, Bool.and_eq_true] at hp
+    have hw : (c :: cs).all isWordChar = true := by
+      simp only [List.all_cons, Bool.and_eq_true]
+      exact ⟨by simp [isWordChar, hp.1], hp.2⟩
+    rw [hs] at hd
+    have hof : String.ofList (c :: cs) = s := by rw [← hs, String.ofList_toList]
+    unfold nameToPy
+    simp only [hs]
+    rw [unescape_noDU (c :: cs) hd]
+    simp only [hof, hk, Bool.false_eq_true, if_false]
+    rw [dropSubstr_noDU (c :: cs) hd, flatMap_word (c :: cs) hw]
+    simp [isAlpha_of_ascii c hp.1, hof]
+
 end Mxl.C08
